@@ -99,6 +99,26 @@ def nlp_diff(p):
         if bad:
             return dict(status="confirmed", failing_input=out["instance"], problems=[dict(what="physical quantity is not declared scale * own solver variable", entries=bad[:8], count=len(bad), checked=n)], **out)
         return dict(status="not-reproduced", detail="all %d scaled entries are declared scale * one solver variable" % n, **out)
+    if ":ensures:value[" in p.get("obligation", "") or p.get("force") == "pvals":
+        # C09: the value table of the solver parameters against the user's values, column by column
+        vals = opti.value_parameters()
+        bad, n = [], 0
+        for kind, lst in (("", meth.P), ("control", meth.P_control), ("control+", meth.P_control_plus)):
+            for i, P in enumerate(lst):
+                if (kind, i) not in spec.pvals:
+                    continue
+                want = np.array(ca.DM(spec.pvals[(kind, i)]))
+                members = [P] if kind == "" else list(P)
+                ncol = ca.MX(members[0]).shape[1]
+                for k, sym in enumerate(members):
+                    n += 1
+                    got = np.array(opti.debug.value(ca.MX(sym), vals)).reshape(ca.MX(sym).shape)
+                    w = want if kind == "" else want[:, k * ncol:(k + 1) * ncol]
+                    if got.shape != w.shape or not np.allclose(got, w, rtol=1e-12, atol=1e-12):
+                        bad.append(dict(parameter="%s #%d" % (kind or "global", i), member=k, observed=got.tolist(), expected_user_value=w.tolist()))
+        if bad:
+            return dict(status="confirmed", failing_input=out["instance"], problems=[dict(what="solver parameter values differ from the user's values", entries=bad[:6], count=len(bad), checked=n)], **out)
+        return dict(status="not-reproduced", detail="all %d solver parameters carry the user's values" % n, **out)
     if p.get("parts") and "init" in p["parts"]:
         from contracts.oracle import expected_initial
         bad = []
